@@ -84,6 +84,20 @@ Definition f_exact_int (a : Z) : option Z :=
 Definition c_f32_limit : Z := 0x47EFFFFFF0000000.
 Definition f_fits_f32 (a : Z) : bool := f_finite a && f_lt (f_abs a) c_f32_limit.
 
+(* float64(float32(f)): round to binary32 (nearest even), widen back *)
+Definition f_round32 (a : Z) : Z :=
+  match fb a with
+  | Binary.B754_finite _ _ s m e _ =>
+      match Binary.binary_normalize 24 128 eq_refl eq_refl mode_NE (if s then Z.neg m else Z.pos m) e s with
+      | Binary.B754_finite _ _ s' m' e' _ =>
+          bf (Binary.binary_normalize 53 1024 eq_refl eq_refl mode_NE (if s' then Z.neg m' else Z.pos m') e' s')
+      | Binary.B754_zero _ _ s' => if s' then 0x8000000000000000 else 0
+      | Binary.B754_infinity _ _ s' => if s' then 0xFFF0000000000000 else 0x7FF0000000000000
+      | Binary.B754_nan _ _ _ _ _ => 0x7FF8000000000001
+      end
+  | _ => a
+  end.
+
 Definition flocq_ops : numops :=
   {| n_le := f_le; n_lt := f_lt; n_eq := f_eq; n_is_int := f_is_json_int; n_mult_of := f_mult_of;
      n_of_int := f_of_Z; n_to_int64 := f_to_int64; n_to_uint64 := f_to_uint64;
